@@ -251,3 +251,15 @@ def partial_unstaged_nonpure_hunk(trace, viol):
             if any(h[0] != h[1] for h in hunks):
                 return True
     return False
+
+
+@predicate("corrupt_state_blocks_commit")
+def corrupt_state_blocks_commit(trace, viol):
+    """a damaged file under .git/ai makes the pre-commit checkpoint fail: git commit is refused,
+    and keeps being refused on retry, until the file is removed by hand"""
+    f = trace.get("fault") or (viol.get("detail") or {}).get("fault") or {}
+    d = viol.get("detail") or {}
+    err = (d.get("gitai_err") or "") + (d.get("retry_err") or "")
+    return f.get("family") == "corrupt" and viol.get("monitor") == "fault.followup" and \
+        viol.get("class") in ("retry_differs_from_plain_git", "later_command_exit_status_differs") and \
+        "Pre-commit failed" in err
